@@ -103,13 +103,23 @@ class Hist:
             except Exception as exc:
                 self.fail(f'export/parse of map{i} failed: {exc!r}', 'export-fails')
                 return
-            ids: Dict[str, List[str]] = {'entity': [], 'solid': [], 'side': []}
+            ids: Dict[str, List[str]] = {'entity': [], 'solid': [], 'side': [], 'group': [], 'visgroup': []}
 
             def walk(kv, depth=0):
                 for c in kv:
                     if c.has_children():
                         if c.name in ('entity', 'world'):
                             ids['entity'].append(c['id', ''])
+                            repl = [k.name for k in c if not k.has_children() and k.name.startswith('replace') and k.name[7:].isdigit()]
+                            if len(set(repl)) != len(repl):
+                                ids.setdefault('replaceNN', []).extend(repl)
+                        elif c.name == 'group':
+                            ids['group'].append(c['id', ''])
+                        elif c.name == 'visgroup':
+                            ids['visgroup'].append(c['visgroupid', ''])
+                            walk(c, depth + 1)
+                        elif c.name == 'visgroups':
+                            walk(c, depth + 1)
                         elif c.name == 'solid':
                             ids['solid'].append(c['id', ''])
                         elif c.name == 'side':
@@ -133,7 +143,8 @@ class Hist:
         vmf = self.maps[mi]
         op = rng.choice(['ent', 'ent', 'brush_ent', 'solid', 'side', 'vis', 'group', 'copy_ent', 'copy_ent_other', 'copy_solid',
                          'remove_ent', 'remove_ent', 'drop', 'drop', 'readd', 'readd', 'remove_brush', 'nodeid', 'nodeid_change',
-                         'fixup', 'fixup_copy', 'parse_dups', 'collapse', 'copy_side', 'copy_vis', 'copy_group', 'failed_create', 'remove_again', 'prism'])
+                         'fixup', 'fixup_copy', 'parse_dups', 'collapse', 'copy_side', 'copy_vis', 'copy_group', 'failed_create', 'remove_again', 'prism',
+                         'add_again', 'replace_side', 'add_ents_nodes'])
         try:
             if op == 'ent':
                 d = rng.choice(IDS)
@@ -274,9 +285,47 @@ class Hist:
                     vmf.add_brush(o)
                 self.log.append(f'{op} map{mi} removed {type(o).__name__} id={o.id} added again')
                 self.nontrivial = True
+            elif op == 'add_again':
+                # an entity that is in the map already is added once more: it must not end up in the file twice
+                if not vmf.entities:
+                    return
+                e = rng.choice(vmf.entities)
+                if rng.random() < 0.5:
+                    vmf.add_ent(e)
+                else:
+                    vmf.add_ents(iter([e, e]))
+                self.run.count('entities_added_again')
+                self.log.append(f'{op} map{mi} entity {e.id} added again')
+            elif op == 'replace_side':
+                # a face leaves its (still live) brush: replaced by a new one, or deleted; once collected its ID is free again
+                cands = [b for b in vmf.brushes if b.sides]
+                if not cands:
+                    return
+                b = rng.choice(cands)
+                k = rng.randrange(len(b.sides))
+                old_id = b.sides[k].id
+                if rng.random() < 0.6:
+                    b.sides[k] = Side(vmf, [Vec(), Vec(1, 0, 0), Vec(0, 1, 0)], des_id=rng.choice(IDS + [old_id]))
+                else:
+                    del b.sides[k]
+                gc.collect()
+                self.released = True
+                extra = Side(vmf, [Vec(), Vec(0, 1, 0), Vec(1, 0, 0)], des_id=old_id)
+                b.sides.append(extra)
+                self.run.count('faces_replaced_in_live_brushes')
+                self.log.append(f'{op} map{mi} brush {b.id}: face {old_id} replaced/deleted, then a face asked for {old_id} -> {extra.id}')
+                self.nontrivial = True
+            elif op == 'add_ents_nodes':
+                # node entities built detached and added through add_ents(): colliding node IDs are re-allocated there too
+                want = [rng.choice((1, 1, 2, 5)) for _ in range(rng.choice((1, 2, 3)))]
+                key = rng.choice(('nodeid', 'nodeid', 'NodeID', 'NODEID'))
+                new = [Entity(vmf, keys={'classname': 'info_node', key: str(w)}) for w in want]
+                vmf.add_ents(iter(new) if rng.random() < 0.5 else new)
+                self.log.append(f'{op} map{mi} {key} wanted {want} -> {[e["nodeid"] for e in new]}')
+                self.nontrivial = True
             elif op == 'nodeid':
                 d = rng.choice((1, 1, 2, 5, 5, 0, -3, 'x'))
-                e = vmf.create_ent('info_node', nodeid=d)
+                e = vmf.create_ent('info_node', **{rng.choice(('nodeid', 'nodeid', 'NodeID')): d})
                 self.log.append(f'{op} map{mi} desired={d} -> {e["nodeid"]}')
             elif op == 'nodeid_change':
                 nodes = [e for e in vmf.entities if 'nodeid' in e]
@@ -440,7 +489,7 @@ def main(run, shard=(0, 1)) -> None:
         # the repository's own tests as an additional workload, with runtime contracts attached (rv/contracts.py)
         from rv.repo_tests_engine import run_repo_tests_with_contracts
         run_repo_tests_with_contracts(run, 'C08', ['test_vmf.py', 'test_instancing.py', 'test_bsp_entities.py', 'test_packlist.py'] if run.tier == 'thorough' else ['test_vmf.py', 'test_instancing.py'])
-    run.require('invariant_evaluations', 'text_scans')
+    run.require('invariant_evaluations', 'text_scans', 'entities_added_again', 'faces_replaced_in_live_brushes')
 
 
 def replay(run, data) -> None:
